@@ -175,7 +175,7 @@ def judge_lp(ex, ref, probe_cap=0, probe_rng=None, counters=None):
         return fs, facts
     if ex['exc'] is not None:
         e = ex['exc']
-        prop = 'C02'
+        prop = 'C18' if e['phase'] == 'debug' else 'C02'
         fs.append(F(prop, 'no_exception', '%s in %s: %s [%s]' % (e['type'], e['phase'], e['msg'], e['where']),
                     exc=e))
         facts['exception'] = e
